@@ -135,6 +135,7 @@ type snippet struct {
 	Feat  string // feature group
 	Decls string // space-separated keys of localDecls34
 	Code  string
+	Sig   string // signature construct (cast grid only)
 }
 
 func snippets34() []snippet {
